@@ -632,6 +632,39 @@ def prop_api(case, ctx):
             if a.shape != b.shape or np.max(np.abs(a - b)) > 1e-12:
                 raise Violation(f"C20:api-{case['kind']}:state-differs",
                                 f"{src!r} on outcomes {occ}: states differ")
+    # independent oracle: the measurement is deterministic (outcomes == occ), so Python's
+    # own value of the expression decides what must have happened to the remaining photon
+    try:
+        value, py_exc = py_eval(src, tuple(occ)), None
+    except Exception as err:  # noqa: BLE001
+        value, py_exc = None, err
+    if py_exc is not None:
+        if res[0][0] == "ok":
+            raise Violation(f"C20:api-{case['kind']}:python-raises-but-program-ran",
+                            f"{src!r} on outcomes {occ}: Python raises {py_exc!r}")
+        return
+    if case["kind"] == "when":
+        phase = 0.3 if bool(value) else 0.0
+    else:
+        if isinstance(value, (bool, int, float)) and math.isfinite(value):
+            phase = float(value)
+        else:
+            ctx.count("api_param_not_a_number")
+            return
+    if res[0][0] != "ok":
+        raise Violation(f"C20:api-{case['kind']}:refused-valid",
+                        f"{src!r} on outcomes {occ} (Python value {value!r}): {res[0][:2]}")
+    if len(res[0][2]) != 1:
+        raise Violation(f"C20:api-{case['kind']}:branches", f"{len(res[0][2])} branches")
+    vec = res[0][2][0]
+    k = int(np.argmax(np.abs(vec)))
+    want = np.exp(1j * phase)
+    if abs(abs(vec[k]) - 1) > 1e-9 or abs(vec[k] - want) > 1e-9:
+        raise Violation(
+            f"C20:api-{case['kind']}:{'condition-truth-value' if case['kind'] == 'when' else 'parameter-value'}",
+            f"{src!r} on outcomes {occ}: Python gives {value!r}, so the photon must carry the "
+            f"phase {phase}; amplitude {vec[k]} != {want}")
+    ctx.count(f"api_{case['kind']}_oracle_checked")
 
 
 # ------------------------------------------------------------------- atheris fuzzing
